@@ -28,7 +28,7 @@ RULE = ("modules of 3..6 doctests drawn from 14 body kinds (bind / read a shared
         "error, emit a warning, fail after unmatched output, fail by output, env-switch dependent output/exception/want); "
         "directed histories first (every doctest twice on the same object; every switch-dependent doctest with the switch "
         "A then B and B then A on the same object; every ordered pair), then random histories (length <= 6 quick, <= 20 "
-        "thorough) mixing re-used and freshly parsed objects.  One evaluation = one run inside a history compared with its "
+        "thorough) mixing re-used and freshly parsed objects; per module the session's default directive state (what --options builds) is empty or one of three harmless non-empty ones, handed as ONE dict to every doctest of a history like the front ends do.  One evaluation = one run inside a history compared with its "
         "fresh-process baseline.  Non-trivial = the run is preceded by at least one other run in its history; distinct by "
         "(module source, history prefix) hash")
 ASSUMPTIONS = [
@@ -73,7 +73,8 @@ SWITCHED = ('switch', 'switch_bind')
 
 def required_cells(tier):
     return (['kind:' + k for k in KINDS] + ['history:same-object-twice', 'history:switch-AB', 'history:switch-BA',
-            'history:ordered-pair', 'history:random', 'history:fresh-object', 'module-dict-checks', 'baseline-children'])
+            'history:ordered-pair', 'history:random', 'history:fresh-object', 'module-dict-checks', 'baseline-children',
+            'session-options:none', 'session-options:given'])
 
 
 def gen(rng, uid):
@@ -91,11 +92,23 @@ def gen(rng, uid):
     return '\n'.join(src) + '\n', ids
 
 
-def load(path):
+def load(path, run_config=None):
+    """run_config: the dict a front end hands to every doctest of one session (runner.doctest_module and the pytest
+    plugin do `example.config.update(config)` with ONE config object, so the nested default_runtime_state dict is the
+    same object in every doctest of the session)"""
     from xdoctest import core
     with warnings.catch_warnings(), contextlib.redirect_stdout(io.StringIO()):
         warnings.simplefilter('ignore')
-        return list(core.parse_doctestables(path, style='google', analysis='static'))
+        exs = list(core.parse_doctestables(path, style='google', analysis='static'))
+    if run_config is not None:
+        for e in exs:
+            e.config.update(run_config)
+    return exs
+
+
+# default directive states as a front end builds them from --options (DoctestConfig._populate_from_cli): harmless for
+# every body kind, but not empty
+SESSION_OPTIONS = [None, None, {'IGNORE_WHITESPACE': True}, {'REPORT_CDIFF': False}, {'NORMALIZE_REPR': True, 'SKIP': False}]
 
 
 def observe(e, sw):
@@ -126,9 +139,10 @@ def observe(e, sw):
 
 # ---------------------------------------------------------------- baseline helper (fresh process, fork per observation)
 
-def baseline_main(path):
-    """python -m xv.props.c11 <path>  -> JSON {callname|sw: observation}"""
+def baseline_main(path, options_json='null'):
+    """python -m xv.props.c11 <path> [options]  -> JSON {callname|sw: observation}"""
     warnings.simplefilter('ignore')
+    options = json.loads(options_json)
     exs = load(path)
     out = {}
     for e in exs:
@@ -138,6 +152,8 @@ def baseline_main(path):
             if pid == 0:
                 try:
                     os.close(r)
+                    if options is not None:
+                        e.config.update({'default_runtime_state': dict(options)})
                     # a fresh object in a process in which nothing ran before
                     ob = observe(e, sw)
                     with os.fdopen(w, 'w') as f:
@@ -152,8 +168,8 @@ def baseline_main(path):
     sys.stdout.write(json.dumps(out))
 
 
-def baseline(ctx, path):
-    p = subprocess.run([sys.executable, '-m', 'xv.props.c11', path], stdout=subprocess.PIPE, stderr=subprocess.PIPE,
+def baseline(ctx, path, options=None):
+    p = subprocess.run([sys.executable, '-m', 'xv.props.c11', path, json.dumps(options)], stdout=subprocess.PIPE, stderr=subprocess.PIPE,
                        text=True, timeout=300, cwd=ctx.tmp)
     if p.returncode != 0 or not p.stdout.strip():
         raise AssertionError('baseline helper failed: %s' % p.stderr[-2000:])
@@ -172,9 +188,11 @@ def check_module(ctx, idx, seed):
     with open(path, 'w') as f:
         f.write(src)
     kind_of = {n: k for n, k, i in ids}
-    case = {'index': idx, 'case_seed': seed}
+    options = rng.choice(SESSION_OPTIONS)
+    case = {'index': idx, 'case_seed': seed, 'session_options': options}
+    ctx.cell('session-options:' + ('none' if options is None else 'given'))
     try:
-        base = baseline(ctx, path)
+        base = baseline(ctx, path, options)
         ctx.event('baseline_observations', len(base))
         ctx.cell('baseline-children', len(base))
         if any(v is None for v in base.values()):
@@ -201,13 +219,15 @@ def check_module(ctx, idx, seed):
                                          for _ in range(rng.randint(3, maxlen))]))
         mod_snap = None
         for hname, hist in histories:
-            # every history starts from freshly parsed objects; the module stays imported (that is the point)
-            objs = {e.callname: e for e in load(path)}
+            # every history starts from freshly parsed objects; the module stays imported (that is the point).
+            # One history = one session: every doctest in it gets the session's one config object
+            run_config = None if options is None else {'default_runtime_state': dict(options)}
+            objs = {e.callname: e for e in load(path, run_config)}
             ok = True
             for step, (name, sw, fresh) in enumerate(hist):
                 e = objs[name]
                 if fresh:
-                    e = [x for x in load(path) if x.callname == name][0]
+                    e = [x for x in load(path, run_config) if x.callname == name][0]
                     ctx.cell('history:fresh-object')
                 mod = sys.modules.get(modname)
                 if mod is not None:
@@ -222,6 +242,8 @@ def check_module(ctx, idx, seed):
                 try:
                     diag['namespace_empty_after_run'] = not bool(e.global_namespace)
                     diag['default_state_pristine'] = (getattr(directive, 'DEFAULT_RUNTIME_STATE', None) == pristine)
+                    if run_config is not None:
+                        diag['session_default_state_unchanged'] = (run_config['default_runtime_state'] == options)
                 except Exception:
                     pass
                 if ob != exp:
@@ -287,4 +309,4 @@ TECHNIQUE = "runtime monitor: per-run observations (outcome, exception type, log
 
 
 if __name__ == '__main__':
-    baseline_main(sys.argv[1])
+    baseline_main(*sys.argv[1:3])
